@@ -615,8 +615,11 @@ class Canon:
                 if isinstance(st, (ast.Assign, ast.AnnAssign)):
                     t = st.targets[0] if isinstance(st, ast.Assign) and len(st.targets) == 1 else getattr(st, "target", None)
                     v = st.value
+                    n_loads = sum(1 for n in _own_nodes(fn) if isinstance(n, ast.Name) and isinstance(n.ctx, ast.Load) and n.id == getattr(t, "id", None))
+                    heavy = any(isinstance(x, (ast.Dict, ast.Call)) for x in ast.walk(v)) if v is not None else False
                     if isinstance(t, ast.Name) and v is not None and t.id not in known and stores.get(t.id) == 1 \
-                            and not isinstance(v, (ast.Name, ast.Constant)) and _pure_expr(v):
+                            and not isinstance(v, (ast.Name, ast.Constant)) and _pure_expr(v) and not (heavy and n_loads > 1) \
+                            and not any(isinstance(x, ast.Dict) for x in ast.walk(v)):
                         # nothing the expression reads may be written after this statement in the function
                         reads_names = {n.id for n in ast.walk(v) if isinstance(n, ast.Name)}
                         reads_attrs = {ast.unparse(n) for n in ast.walk(v) if isinstance(n, ast.Attribute)}
@@ -948,7 +951,7 @@ def relocate(modname: str, tree: ast.Module) -> dict:
         if parent_missing and parent_missing not in actual and parent_missing in ref_funcs and parent_missing not in mapping.values():
             continue  # the enclosing pinned function is gone as well: not a move of this function alone
         simple = q.split(".")[-1]
-        cands = [a for a in actual if a.split(".")[-1] == simple and a not in ref_funcs and a not in mapping
+        cands = [a for a in actual if a.split(".")[-1].lstrip("_") == simple.lstrip("_") and a not in ref_funcs and a not in mapping
                  and not any(a.startswith(m + ".") for m in mapping)]
         if len(cands) == 1:
             mapping[cands[0]] = q
